@@ -1,0 +1,16 @@
+//go:build verif
+
+package enemy
+
+import "github.com/simimpact/srsim/pkg/key"
+
+// VerifCatalog returns a copy of the enemy catalog (verification harness only).
+func VerifCatalog() map[key.Enemy]Config {
+	mu.Lock()
+	defer mu.Unlock()
+	out := make(map[key.Enemy]Config, len(enemyCatalog))
+	for k, v := range enemyCatalog {
+		out[k] = v
+	}
+	return out
+}
